@@ -120,3 +120,191 @@ func minLenAnalysis(fn *ssa.Function, isLen func(ssa.Value) bool, infeasible fun
 	}
 	return in
 }
+
+// constSetAnalysis is a forward may-analysis of the set of constants a tested
+// variable can equal on entry to each block. The universe is every constant
+// the variable is compared with (== / !=) in the function plus "other"
+// (represented by the key otherConst). Edges refine the set: x == K keeps {K}
+// on the true edge and removes K on the false edge; merges take the union.
+const otherConst = int64(-1) << 62
+
+func constSetAnalysis(fn *ssa.Function, isVar func(ssa.Value) bool) []map[int64]bool {
+	universe := map[int64]bool{otherConst: true}
+	type test struct {
+		k  int64
+		eq bool
+	}
+	tests := map[*ssa.If]test{}
+	for _, b := range fn.Blocks {
+		iff, ok := b.Instrs[len(b.Instrs)-1].(*ssa.If)
+		if !ok {
+			continue
+		}
+		cond, truth := stripNot(iff.Cond, true)
+		bo, ok := cond.(*ssa.BinOp)
+		if !ok || (bo.Op != token.EQL && bo.Op != token.NEQ) {
+			continue
+		}
+		x, y := bo.X, bo.Y
+		if _, isC := x.(*ssa.Const); isC {
+			x, y = y, x
+		}
+		k, okc := constInt(y)
+		if !okc || !isVar(x) {
+			continue
+		}
+		universe[k] = true
+		tests[iff] = test{k: k, eq: (bo.Op == token.EQL) == truth}
+	}
+	in := make([]map[int64]bool, len(fn.Blocks))
+	if len(fn.Blocks) == 0 {
+		return in
+	}
+	in[0] = map[int64]bool{}
+	for k := range universe {
+		in[0][k] = true
+	}
+	for changed := true; changed; {
+		changed = false
+		for _, b := range fn.Blocks {
+			if in[b.Index] == nil {
+				continue
+			}
+			for k, s := range b.Succs {
+				out := map[int64]bool{}
+				for c := range in[b.Index] {
+					out[c] = true
+				}
+				if iff, ok := b.Instrs[len(b.Instrs)-1].(*ssa.If); ok && b.Succs[0] != b.Succs[1] {
+					if t, ok := tests[iff]; ok {
+						equalEdge := (k == 0) == t.eq
+						if equalEdge {
+							keep := out[t.k]
+							out = map[int64]bool{}
+							if keep {
+								out[t.k] = true
+							}
+						} else {
+							delete(out, t.k)
+						}
+					}
+				}
+				if in[s.Index] == nil {
+					in[s.Index] = map[int64]bool{}
+				}
+				for c := range out {
+					if !in[s.Index][c] {
+						in[s.Index][c] = true
+						changed = true
+					}
+				}
+			}
+		}
+	}
+	return in
+}
+
+// intBoundsAt derives constant bounds on an integer value from the branch
+// facts that hold on entry to a block (ok flags tell which bound is known).
+func intBoundsAt(b *ssa.BasicBlock, v ssa.Value) (lo, hi int64, hasLo, hasHi bool) {
+	for _, f := range factsAt(b) {
+		bo, ok := f.Cond.(*ssa.BinOp)
+		if !ok {
+			continue
+		}
+		op := bo.Op
+		x, y := bo.X, bo.Y
+		if c, okc := constInt(x); okc && (y == v || sameValueShape(y, v)) {
+			_ = c
+			x, y = y, x
+			m, okm := mirror[op]
+			if !okm {
+				continue
+			}
+			op = m
+		}
+		c, okc := constInt(y)
+		if !okc || !(x == v || sameValueShape(x, v)) {
+			continue
+		}
+		if !f.Truth {
+			switch op {
+			case token.LSS:
+				op = token.GEQ
+			case token.GEQ:
+				op = token.LSS
+			case token.GTR:
+				op = token.LEQ
+			case token.LEQ:
+				op = token.GTR
+			case token.EQL:
+				op = token.NEQ
+			case token.NEQ:
+				op = token.EQL
+			}
+		}
+		switch op {
+		case token.LSS:
+			if !hasHi || c-1 < hi {
+				hi, hasHi = c-1, true
+			}
+		case token.LEQ:
+			if !hasHi || c < hi {
+				hi, hasHi = c, true
+			}
+		case token.GTR:
+			if !hasLo || c+1 > lo {
+				lo, hasLo = c+1, true
+			}
+		case token.GEQ:
+			if !hasLo || c > lo {
+				lo, hasLo = c, true
+			}
+		case token.EQL:
+			lo, hi, hasLo, hasHi = c, c, true, true
+		}
+	}
+	return
+}
+
+// constSetOnEdge refines the set that holds on entry to pred by the outcome of
+// pred's terminating test along its edge to succ.
+func constSetOnEdge(in []map[int64]bool, pred, succ *ssa.BasicBlock, isVar func(ssa.Value) bool) map[int64]bool {
+	out := map[int64]bool{}
+	for c := range in[pred.Index] {
+		out[c] = true
+	}
+	iff, ok := pred.Instrs[len(pred.Instrs)-1].(*ssa.If)
+	if !ok || pred.Succs[0] == pred.Succs[1] {
+		return out
+	}
+	cond, truth := stripNot(iff.Cond, true)
+	bo, ok := cond.(*ssa.BinOp)
+	if !ok || (bo.Op != token.EQL && bo.Op != token.NEQ) {
+		return out
+	}
+	x, y := bo.X, bo.Y
+	if _, isC := x.(*ssa.Const); isC {
+		x, y = y, x
+	}
+	k, okc := constInt(y)
+	if !okc || !isVar(x) {
+		return out
+	}
+	eq := (bo.Op == token.EQL) == truth
+	for i, s := range pred.Succs {
+		if s != succ {
+			continue
+		}
+		if (i == 0) == eq {
+			keep := out[k]
+			out = map[int64]bool{}
+			if keep {
+				out[k] = true
+			}
+		} else {
+			delete(out, k)
+		}
+	}
+	return out
+}
